@@ -74,16 +74,24 @@ def notNone : Node → Bool
   | .val .none => false
   | _ => true
 
+/-- `cls.__name__` of the class with index `ci` -/
+def clsName (S : Schema) (ci : Nat) : Str :=
+  match S.cls? ci with
+  | some c => c.name
+  | none => ['?']
+
+/-- `type(v).__name__` of an element value -/
+def valClassName : Val → Str
+  | .str _ => "str".toList
+  | .int _ => "int".toList
+  | .bool _ => "bool".toList
+  | .none => "NoneType".toList
+  | _ => "object".toList
+
 /-- `member.__class__.__name__` -/
 def argClassName (S : Schema) : Node → Str
-  | .agg ci _ _ => match S.cls? ci with
-    | some c => c.name
-    | none => "?".toList
-  | .val (.str _) => "str".toList
-  | .val (.int _) => "int".toList
-  | .val (.bool _) => "bool".toList
-  | .val .none => "NoneType".toList
-  | .val _ => "object".toList
+  | .agg ci _ _ => clsName S ci
+  | .val v => valClassName v
 
 /-! ### validate_args -/
 
@@ -184,6 +192,14 @@ def setAttrs (S : Schema) (cv : Conv) : List Attr → List (Str × Node) → PyM
 def residualKeys (c : Cls) (kw : List (Str × Node)) : List Str :=
   (kw.map (·.1)).filter (fun k => !((specNoList c).map (·.name)).contains k)
 
+/-- one member in `Aggregate._apply_args`: an `Aggregate` whose lower-cased class name is a list attribute -/
+def applyArg (S : Schema) (c : Cls) (m : Node) : PyM Node :=
+  match m with
+  | .agg ci f i =>
+    if (listAggNames c).contains (lower (argClassName S (.agg ci f i))) then .ok (.agg ci f i)
+    else .error .type
+  | .val _ => .error .type
+
 /-- `Aggregate._apply_args` / `ElementList._apply_args` -/
 def applyArgs (S : Schema) (cv : Conv) (c : Cls) (args : List Node) : PyM (List Node) :=
   if c.elementList then
@@ -194,13 +210,7 @@ def applyArgs (S : Schema) (cv : Conv) (c : Cls) (args : List Node) : PyM (List 
         args.mapM (fun m => (cv.convert S.enums inner ireq (Node.toVal m)).map Node.val)
       | _ => .error .assert
     | _ => .error .assert
-  else
-    args.mapM (fun m =>
-      match m with
-      | .agg ci f i =>
-        if (listAggNames c).contains (lower (argClassName S (.agg ci f i))) then .ok (.agg ci f i)
-        else .error .type
-      | .val _ => .error .type)
+  else args.mapM (applyArg S c)
 
 def applyResidual (c : Cls) (kw : List (Str × Node)) : PyM Unit :=
   match residualKeys c kw with
@@ -240,6 +250,25 @@ def groomTag (c : Cls) (renamed : Bool) (tag : Str) : Option Str × Bool :=
     else (if tag.contains '.' then none else some tag, renamed)
   | none => (if tag.contains '.' then none else some tag, renamed)
 
+/-- `index <= prev_index` (`prev = none` stands for −1) -/
+def outOfOrder (prev : Option Nat) (index : Nat) : Bool :=
+  match prev with
+  | none => false
+  | some p => decide (index ≤ p)
+
+/-- `attrname in cls.unsupported` for the attribute at `index` -/
+def unsupportedAt (c : Cls) (index : Nat) : Bool :=
+  match c.spec[index]? with
+  | some a => a.kind.isUnsupported
+  | none => false
+
+/-- the value of a supported child: its text when it has one (`elem.text` truthy), else its own
+    conversion `sub` (`Aggregate.from_etree(elem)`) -/
+def childValue (child : Tree) (sub : PyM Node) : PyM Node :=
+  match child.text with
+  | some (t :: ts) => .ok (Node.val (.str (t :: ts)))
+  | _ => sub
+
 /-- one step of `functools.reduce(update_args, elem, initial)` on a child whose own conversion
     (were it an aggregate) is `sub` -/
 def updateArgs (c : Cls) (acc : Accum) (child : Tree) (sub : PyM Node) : PyM Accum :=
@@ -252,19 +281,9 @@ def updateArgs (c : Cls) (acc : Accum) (child : Tree) (sub : PyM Node) : PyM Acc
     | none => .ok acc                                   -- unknown tag: warn and skip
     | some index =>
       let isList := isListMember c attrname
-      let outOfOrder := match acc.prev with
-        | none => false
-        | some p => decide (index ≤ p)
-      if outOfOrder && !(isList && acc.prevIsList) then .error .spec
+      if outOfOrder acc.prev index && !(isList && acc.prevIsList) then .error .spec
       else do
-        let unsupported := match c.spec[index]? with
-          | some a => a.kind.isUnsupported
-          | none => false
-        let value ←
-          if unsupported then pure (Node.val .none)
-          else match child.text with
-            | some (t :: ts) => pure (Node.val (.str (t :: ts)))
-            | _ => sub
+        let value ← if unsupportedAt c index then pure (Node.val .none) else childValue child sub
         if isList then
           pure { acc with args := acc.args ++ [value], prev := some index, prevIsList := true }
         else if hasKey attrname acc.kwargs then .error .spec
@@ -309,6 +328,13 @@ def renameFirst (r : Rename) : List Tree → List Tree
   | (.node t x tl cs) :: rest =>
     if t = r.fromTag then .node r.toTag x tl cs :: rest else .node t x tl cs :: renameFirst r rest
 
+/-- `ET.SubElement(root, attr.upper()).text = text` -/
+def leafOf (a : Attr) (t : Val) : PyM Tree :=
+  match t with
+  | .str s => .ok (Tree.node (upper a.name) (some s) none [])
+  | .none => .ok (Tree.node (upper a.name) none none [])
+  | _ => .error .type
+
 /-- `_listAppend` for every member, given the members' own `to_etree` results -/
 def listAppend (S : Schema) (cv : Conv) (c : Cls) (items : List Node) (its : List (PyM Tree)) :
     PyM (List Tree) :=
@@ -319,10 +345,7 @@ def listAppend (S : Schema) (cv : Conv) (c : Cls) (items : List Node) (its : Lis
       | .listElem inner ireq =>
         items.mapM (fun m => do
           let t ← cv.unconvert S.enums inner ireq (Node.toVal m)
-          match t with
-          | .str s => pure (Tree.node (upper a.name) (some s) none [])
-          | .none => pure (Tree.node (upper a.name) none none [])
-          | _ => .error .type)
+          leafOf a t)
       | _ => .error .assert
     | _ => .error .assert
   else its.mapM id
@@ -350,11 +373,9 @@ def emitSpec (S : Schema) (cv : Conv) (c : Cls) (fields : List (Str × Node))
         pure (child :: more)
       | some (.val v) => do
         let t ← cv.unconvert S.enums a.kind a.required v
+        let child ← leafOf a t
         let more ← emitSpec S cv c fields fts items its rest doList
-        match t with
-        | .str s => pure (Tree.node (upper a.name) (some s) none [] :: more)
-        | .none => pure (Tree.node (upper a.name) none none [] :: more)
-        | _ => .error .type
+        pure (child :: more)
 
 def assemble (S : Schema) (cv : Conv) (ci : Nat) (fields : List (Str × Node))
     (fts : List (Str × PyM Tree)) (items : List Node) (its : List (PyM Tree)) : PyM Tree :=
